@@ -18,17 +18,17 @@ levels = {
  "C06": (MC, "index canonical form as preserved invariant; ls-files = independent decoding; tracked path / tracked directory selection clauses on add, rm, restore", "6 C06"),
  "C07": (MC, "status 'Changes to be committed' = Diff(HEAD snapshot, staging area) computed by TLC from independently decoded trees, in every state of every execution; clean after commit; nothing-to-commit refused; any staged difference commits", "6 C07"),
  "C08": (MC, "reset target = the entry `reflog` shows at position n in the pre-state; per-mode clauses on branch, index, working tree; refusal of malformed/out-of-range positions; model MC_Refs/MC_Stage enumerates every position and mode in every reachable history inside the bound", "6 C08"),
- "C09": (MC, "restore / restore --staged exactness clauses on every real step (selected paths get staged/HEAD content, nothing else changes), arguments: file, existing directory, deleted file, deleted directory, unknown", "6 C09"),
- "C10": (MC, "branch/HEAD state machine: MC_Refs explores every interleaving of create/delete/rename/switch/switch -c/update-ref/commit/reset inside the bound, TLC checks the C10 clauses on the model and on the replay of every edge on the real binary; branch --list and rev-parse compared with the stored state in every state", "6 C10"),
+ "C09": (MC, "restore / restore --staged exactness clauses on every real step (selected paths get staged/HEAD content, nothing else changes), arguments: file, existing directory, deleted file, deleted directory, unknown, repeated, a directory and one of its members, other spellings of clean paths (./f, d/./g, d//g)", "6 C09"),
+ "C10": (MC, "branch/HEAD state machine: MC_Refs explores every interleaving of create/delete/rename/switch/switch -c/update-ref/commit/reset inside the bound, TLC checks the C10 clauses on the model and on the replay of every edge on the real binary; branch --list and rev-parse compared with the stored state in every state; branch/switch/update-ref command lines from the CLI grammar (surplus and combined arguments): whatever is refused changes nothing (C10_RefusedNothing)", "6 C10"),
  "C11": (MC, "reflog view before/after every command: append-only shift, newest entry = HEAD commit with the right kind after commit/switch/reset, readable after rename/delete and for every message class and zone offset", "6 C11"),
  "C12": (MC, "all 105 quarter-hour offsets (generated TZif files) x identity and message classes: stored sign lines parse strictly, offset/instant match the run, log and cat-file read back the same; e-mail addresses and names drawn from grammars (every punctuation character), message lines and names around 4096 and 8192 bytes", "6 C12"),
  "C13": (MC, "status modified/deleted/untracked sections = the sets computed by TLC from the projected index, blobs and working tree (content tokens, no hashing), with .goitignore latitude; touch and identical rewrite leave the report unchanged; the model's transcription of cmd/status.go (StatusImpl, with the ignore matching of internal/store/ignore.go) is checked by TLC against the same clauses on every transition of the bounded instances", "6 C13"),
  "C14": (MC, "log -n k (k in 0..9 and default) = first min(k, len) elements of the first-parent chain computed by TLC from decoded commits, in every state; depends only on objects and HEAD commit; the transcription of cmd/log.go's queue (LogImpl/LogObs) is checked against TakeN(Chain, k) on every reachable model state", "6 C14"),
- "C15": (FE, "every crash point (prefix of the strace-recorded file-system modifications) of every modifying command over scenario + random pre-states is materialised, projected and judged by TLC against C15_Loads, C15_Refs, C15_Reach, C15_OldOrNew; recording self-checked, sample cross-checked by really killing the process; the write protocols are model-checked at design level (GoitFS/MC_FS: a crash at every position of every interleaving; MC_FSOld, the protocol branch -r had before its repair, is the negative control) and every recorded run is checked to be in the language of its command's plan", "6 C15"),
- "C16": (FE, "every single fault position (open/create/read/readdir/write/mkdir/rename/remove, stat excluded) of every modifying command, injected with strace, judged by TLC against C16_NoCrash, C16_HonestSuccess (all functional clauses + same result as the fault-free run), C16_Connected, C16_NoBadAdvance", "6 C16"),
+ "C15": (FE, "every crash point (prefix of the strace-recorded file-system modifications) of every modifying command over scenario + random pre-states is materialised, projected and judged by TLC against C15_Loads, C15_Refs, C15_Reach, C15_OldOrNew; after every crash point the interrupted command is given again and that step is judged too (C15_RetryNoCrash, C15_RetryUsable); recording self-checked, sample cross-checked by really killing the process; the write protocols are model-checked at design level (GoitFS/MC_FS: a crash at every position of every interleaving; MC_FSOld, the protocol branch -r had before its repair, is the negative control) and every recorded run is checked to be in the language of its command's plan", "6 C15"),
+ "C16": (FE, "every single fault position (open/create/read/readdir/write/mkdir/rename/remove, stat excluded) of every modifying command, injected with strace (positions compared modulo temporary-file names; a fault that lands on another repository call is judged where it happened), judged by TLC against C16_NoCrash, C16_HonestSuccess (all functional clauses + same result, journal included, as the fault-free run), C16_Connected, C16_NoBadAdvance", "6 C16"),
  "C17": (MC, "no index path inside .goit, no ignored path staged or listed, nothing hidden without .goitignore, metadata bytes untouched by restore/reset --hard; argument forms '.', parent directory, ignored path itself, nested; clauses judged by TLC on every step", "6 C17"),
  "C18": (MC, "CLI grammar (22 sub-command forms x flag subsets x 0..3 arguments from valid/missing/surplus/malformed/non-existent/metacharacter classes) against states reached by the model tour and random histories, incl. fresh repository, emptied index, empty snapshot, renamed branch: result in {ok, refused}, refused => byte-identical repository", "6 C18"),
- "C19": (FE, "every truncation, every single-byte deletion, single-byte substitutions, field-level damage of the text files (fields shortened, lengthened, split, joined), object swaps, crafted objects and generator-made arbitrary bytes for object, index, HEAD, branch, config and reflog files of repositories Goit produced; every read-only command, cat-file, restore, reset --hard run on each; judged by TLC (C19_Total, C19_NoWrongData)", "6 C19"),
+ "C19": (FE, "every truncation, every single-byte deletion, single-byte substitutions, field-level damage of the text files (fields shortened, lengthened, split, joined), object swaps, crafted objects and generator-made arbitrary bytes for object, index, HEAD, branch, config and reflog files of repositories Goit produced; every read-only command, cat-file -t/-p, restore, reset --hard run on each under a timeout, an address-space limit and a peak-RSS bound; judged by TLC (C19_Total, C19_NoWrongData incl. the kind cat-file -t prints)", "6 C19"),
  "C20": (MC, "config write = exact update of the parsed file of that scope, other scope untouched, file parses strictly; author of the next commit = local-before-global identity; commit gated on both name and e-mail; values with '=', brackets, '#', ';', quotes, every other punctuation character, non-ASCII, values around 4096 and 8192 bytes", "6 C20"),
 }
 technique = {
